@@ -115,7 +115,7 @@ theorem reaper_calls : callsOf "worker.goRemoveIdleWorkers$1" =
     ["numMinIdleWorkers", "Len", "NodeSlice", "len", "Before", "Add", "GetLastUsed", "Now", "Remove", "Stop", "Put"] := by decide
 theorem stop_all_calls : callsOf "worker.stopAndRemoveAllWorkers" = ["NodeSlice", "Remove", "Stop", "Put"] := by decide
 theorem tune_pool_calls : callsOf "worker.TunePool" =
-    ["Load", "Load", "withSafeConcurrency", "Store", "notifyToPullNextJobs", "numMinIdleWorkers", "Len", "PopBack", "Remove", "Stop", "Put"] := by decide
+    ["Load", "Load", "withSafeConcurrency", "Store", "notifyToPullNextJobs", "numMinIdleWorkers", "PopBackIfLonger", "Stop", "Put"] := by decide
 
 theorem wrapper_calls : callsOf "NewWorker$1" = ["WithSafe", "incFailed", "sendError", "incSuccessful"] ∧
     callsOf "NewErrWorker$1" = ["WithSafe", "SelectError", "sendError", "sendError", "incFailed", "incSuccessful"] ∧
@@ -133,7 +133,7 @@ theorem pq_lock_skeletons :
     skeletonOf "PriorityQueue.Len" = ["mutex:q.mx:RLock", "mutex:q.mx:RUnlock"] ∧
     skeletonOf "PriorityQueue.Purge" = ["mutex:q.mx:Lock", "mutex:q.mx:Unlock"] := by decide
 theorem list_lock_skeletons :
-    skeletonOf "List.PopBack" = ["mutex:l.mx:Lock", "mutex:l.mx:Unlock"] ∧ skeletonOf "List.Remove" = ["mutex:l.mx:Lock", "mutex:l.mx:Unlock"] ∧
+    skeletonOf "List.PopBack" = ["mutex:l.mx:Lock", "mutex:l.mx:Unlock"] ∧ skeletonOf "List.PopBackIfLonger" = ["mutex:l.mx:Lock", "mutex:l.mx:Unlock"] ∧ skeletonOf "List.Remove" = ["mutex:l.mx:Lock", "mutex:l.mx:Unlock"] ∧
     skeletonOf "List.PushNode" = ["mutex:l.mx:Lock", "mutex:l.mx:Unlock"] := by decide
 theorem manager_lock_skeletons :
     skeletonOf "Manager.GetRoundRobinItem" = ["mutex:m.mx:Lock", "mutex:m.mx:Unlock"] ∧ skeletonOf "Manager.Len" = ["mutex:m.mx:RLock", "mutex:m.mx:RUnlock"] ∧
